@@ -357,9 +357,9 @@ func TestVerifBlockTree(t *testing.T) {
 			parent: map[int]int{0: -1}, arrival: map[int]time.Time{}}
 		var prefix []json.RawMessage
 		known := []int{0}
-		abandon := false
+		abandon, abandonLate := false, false
 		for si, raw := range b.Steps {
-			if abandon {
+			if abandon || abandonLate {
 				break
 			}
 			var s vbtStep
@@ -433,11 +433,14 @@ func TestVerifBlockTree(t *testing.T) {
 						}
 					}
 				case "AddDup":
-					err := w.bt.AddBlock(w.hdr[o.B], base)
+					// the same block delivered again, LATER than every arrival so far (a second peer announcing it)
+					err := w.bt.AddBlock(w.hdr[o.B], base.Add(time.Duration(100000+si)*time.Second))
 					res.Cmp()
 					if err == nil {
 						fail("C15", "err", "an error (block is already in the tree)", "nil", "AddBlock/duplicate/accepted")
-						abandon = true
+						// the tree is observed once more before the behaviour is given up: a block that is already there keeps its
+						// first arrival, so the fork choice does not move (C16)
+						abandonLate = true
 					}
 				case "Finalise":
 					cls := "not-in-tree"
